@@ -814,10 +814,10 @@ Qed.
 Lemma flag_testbit f k : flag f (2 ^ k) = Nat.testbit f k.
 Proof. unfold flag. rewrite Nat.testbit_odd, Nat.shiftr_div_pow2. reflexivity. Qed.
 
-Lemma pal_info_dyn p f : 8 <= p -> pal_info p f = dyn_info p f.
-Proof. intros H. do 8 (destruct p as [|p]; [lia|]). reflexivity. Qed.
+Lemma pal_info_dyn p f : 8 <= p <= 11 -> pal_info p f = dyn_info p f.
+Proof. intros H. do 8 (destruct p as [|p]; [lia|]). do 4 (destruct p as [|p]; [reflexivity|]). lia. Qed.
 
-Theorem pal_info_fields p f : 8 <= p ->
+Theorem pal_info_fields p f : 8 <= p <= 11 ->
   let i := pal_info p f in
   ci_pal i = p /\ ci_ev i = true /\ ci_hasval i = true /\
   ci_create i = (if Nat.testbit f 0 then Some (Z.of_nat (1000 + p)) else None) /\
@@ -838,13 +838,13 @@ Definition lc_equiv (i j : cinfo) : Prop :=
   (ci_create i = None -> ci_default i = ci_default j) /\
   ci_destroy i && ci_ev i = ci_destroy j && ci_ev j.
 
-Theorem dyn_full_like_static p : 8 <= p ->
+Theorem dyn_full_like_static p : 8 <= p <= 11 ->
   lc_equiv (pal_info p 31) (inst_info p false) /\ lc_equiv (pal_info p 63) (inst_info p false).
 Proof.
   intros H. rewrite !(pal_info_dyn p _ H). split; unfold lc_equiv; cbn; repeat split; try reflexivity; intros; congruence.
 Qed.
 
-Theorem dyn_plain_like_trivial p : 8 <= p -> lc_equiv (pal_info p 0) (trivial_info p true).
+Theorem dyn_plain_like_trivial p : 8 <= p <= 11 -> lc_equiv (pal_info p 0) (trivial_info p true).
 Proof. intros H. rewrite (pal_info_dyn p _ H). unfold lc_equiv; cbn; repeat split; try reflexivity; intros; congruence. Qed.
 
 Definition set_cinfos s v := {| slots := slots s; locs := locs s; next_slot := next_slot s; empty_slots := empty_slots s; archs := archs s; lockc := lockc s; next_eid := next_eid s; bufs := bufs s; tmps := tmps s; marked := marked s; deps := deps s; pool := pool s; insts := insts s; wv := wv s; cached := cached s; def_chunk := def_chunk s; chunk_fns := chunk_fns s; cinfos := v; nthreads := nthreads s; epoch := epoch s; log := log s |}.
